@@ -158,6 +158,7 @@ func C02(p *engine.Prog, r *engine.Report) {
 	importRules(p, r, "C06", map[string]string{"C06-R1": "C02-R6"})
 	// ---------------- R7: flags the proposer may choose are chosen under the validator's conditions
 	offlineFlagsPeriodRule(p, r, "C02-R7")
+	offlineFlagsAtomsRule(p, r, "C02-R7")
 	// ---------------- R8: what the builder applies is what it includes
 	if ft != nil {
 		var ap *ssa.Call
